@@ -126,7 +126,14 @@ claim("C17", "Persist",
       "Value equality is the harness's projection. One recorded finding (standalone scheme files with cwd-relative source paths). Trusted: TLC, Json module.",
       "DESIGN.md §5 C17")
 
+claim("C04", "Compartments",
+      "TLA+ spec Compartments.tla: K-matrices (one or two combined, later entries override) with integer rates, declaration orders, initial concentrations with exclusion, built by fan-out; integer spectrum search, amplitudes by the spectral projector (adjugate) in exact arithmetic; invariants SumsToJ, EigenEq (c' = Kc solved), Conserved, PermutationEquivariance, SeqEquiv, ParEquiv, SequentialShortcutAdmissible/Sound checked by TLC on every accepted instance; every instance replayed on KMatrix (rates, a_matrix, full/reduced matrix), on the decay / decay-sequential / decay-parallel matrices (column of compartment s = sum_l A_l[s] exp(-lambda_l t)) and a sample through optimize() (rates, lifetimes, a_matrix, k_matrix, species_concentration, DAS = SAS x A^T)",
+      "Exhaustive over compartmental schemes with up to 3 (thorough: 4) compartments with rational spectrum: all entry sets over rates {1,2,3,5}, all declaration orders, initial concentrations e_i / uniform / mixed with and without exclude_from_normalize, two combined K-matrices, sequential and parallel definitions.",
+      "NOT decided: irrational spectra and six-decade rate spreads (conditioning of eig; DESIGN §6). Instances without n distinct integer eigenvalues are counted and skipped. Trusted: TLC, elementary-function interpreter (exp).",
+      "DESIGN.md §5 C04")
+
 ENGINES = [
+    {"name": "Compartments", "path": "spec/Compartments.tla", "serves_properties": ["C04"], "kind_free_text": "TLA+ Compartments.tla (exact compartmental algebra, emission built in); harness/c04.py"},
     {"name": "ParamTable", "path": "spec/ParamTable.tla", "serves_properties": ["C16"], "kind_free_text": "TLA+ ParamTable(+Emit), ParamFromSpec(+Emit); harness/c16.py"},
     {"name": "Persist", "path": "spec/Persist.tla", "serves_properties": ["C17"], "kind_free_text": "TLA+ Persist(+Emit); harness/c17.py, c17_world.py, c17_content.py"},
     {"name": "IrfIndex", "path": "spec/IrfIndex.tla", "serves_properties": ["C05", "C07"], "kind_free_text": "TLA+ IrfIndex.tla(+Emit), Basis.tla(+Emit); harness/c05.py, c07.py, drivers_irf.py"},
